@@ -22,6 +22,7 @@ def basic_states():
         "foreign-nested": {"sub": {"deep": {"x.c": b"int x;"}}, "notes": b"n"},
         "is-a-file": b"i am a file",
         "bad-info": {"info": b"not magic", "default.opts": b""},
+        "only-hidden": {".git": {"config": b"[core]"}, ".secret": b"s"},
     }
 
 
@@ -30,7 +31,7 @@ def rand_tree(rng, depth=0):
     if depth > 2 or kind < 0.15:
         return {}
     t = {}
-    names = ["info", "default.opts", "a", "b.dat", "sub", "task.txt", "z", "sid-1.map"]
+    names = ["info", "default.opts", "a", "b.dat", "sub", "task.txt", "z", "sid-1.map", ".channel", ".git", ".hidden"]
     for _ in range(rng.randint(1, 4)):
         n = rng.choice(names)
         r = rng.random()
@@ -173,7 +174,7 @@ def run(ctx):
             materialize(os.path.join(parent, "bystander"), {"keep": b"me"})
         cases.append(("cd %s DIR %s" % (parent, faults), desc))
 
-    # exhaustive 8 x 8 grid x {no fault, each single fault}
+    # exhaustive 9 x 9 grid x {no fault, each single fault}
     for dn, dv in bs.items():
         for on, ov in bs.items():
             for f in single_faults:
@@ -252,10 +253,12 @@ def run(ctx):
                 }, no_failing_input=not bad)
     if (disagree or monitor_fail) and first_replays == 0:
         pass
+    e2e_runs, e2e_bad = e2e(ctx)
     ctx.coverage.update({
+        "e2e_record_runs": e2e_runs, "e2e_monitor_failures": e2e_bad,
         "evaluations": len(cases),
         "distinct_nontrivial": len(distinct),
-        "rule": "exhaustive 8x8 grid of DIR/DIR.old pre-states x {no fault, k-th (k<2) failure of each of "
+        "rule": "exhaustive 9x9 grid of DIR/DIR.old pre-states x {no fault, k-th (k<2) failure of each of "
                 "stat/unlink/rmdir/rename/mkdir/fopen}; then random trees (depth<=3) with 0-3 random faults; "
                 "then live-mode cases. distinct = distinct (readdir-ordered pre-tree, fault set) pairs",
         "grid_cases": grid, "random_cases": nrand, "live_cases": nlive,
@@ -272,6 +275,90 @@ def run(ctx):
         "read-side probes (access/open/opendir) are not made to fail: they define what 'uftrace directory' means",
     ]
     return C.finish(ctx)
+
+
+def snapshot_tree(path):
+    if not os.path.lexists(path):
+        return None
+    if os.path.isdir(path):
+        return {n: snapshot_tree(os.path.join(path, n)) for n in os.listdir(path)}
+    try:
+        return open(path, "rb").read()
+    except OSError:
+        return b"<unreadable>"
+
+
+def e2e(ctx):
+    """The real `uftrace record` / `record --host` / live runs of the snapshot build against
+    pre-populated DIR / DIR.old; the property monitor is evaluated on the file system."""
+    import socket
+    import time
+    ok, log = ctx.make()
+    if not ok:
+        C.violation(ctx, "make", {"kind": "build-failed", "log": log[-2000:]}, True)
+        return 0, 0
+    uft = os.path.join(ctx.src, "uftrace")
+    work = os.path.join(ctx.scratch, "e2e")
+    os.makedirs(work)
+    prog_c = os.path.join(work, "prog.c")
+    open(prog_c, "w").write("int f(int x){return x+1;} int main(void){return f(1)-2;}\n")
+    prog = os.path.join(work, "prog")
+    subprocess.run(["gcc", "-pg", "-o", prog, prog_c], check=True)
+    # loopback receiver for --host
+    sock = socket.socket()
+    sock.bind(("127.0.0.1", 0))
+    port = sock.getsockname()[1]
+    sock.close()
+    rcv = subprocess.Popen([uft, "recv", "-d", os.path.join(work, "rcv"), "--port", str(port)],
+                           stdout=subprocess.DEVNULL, stderr=subprocess.DEVNULL)
+    time.sleep(0.5)
+    bs = basic_states()
+    states = ["absent", "empty", "uftrace-info", "foreign-file", "foreign-nested", "is-a-file", "only-hidden", "bad-info"]
+    runs = bad = 0
+    try:
+        for mode in ("local", "host", "live"):
+            for dn in states:
+                for on in (["absent", "foreign-file", "uftrace-opts-only"] if mode != "live" else ["absent"]):
+                    if mode == "live" and dn not in ("absent", "foreign-file"):
+                        continue
+                    parent = os.path.join(work, "%s-%s-%s" % (mode, dn, on))
+                    os.makedirs(parent)
+                    materialize(os.path.join(parent, "DIR"), bs[dn])
+                    materialize(os.path.join(parent, "DIR.old"), bs[on])
+                    materialize(os.path.join(parent, "bystander"), {"keep": b"me"})
+                    pre = snapshot_tree(parent)
+                    cmd = [uft, "record", "--libmcount-path=" + os.path.join(ctx.src, "libmcount"), "--no-event", "-d", "DIR"]
+                    if mode == "host":
+                        cmd += ["--host", "127.0.0.1", "--port", str(port)]
+                    if mode == "live":
+                        # live mode works in a temporary directory of its own; DIR here is a bystander
+                        cmd = [uft, "live", "--libmcount-path=" + os.path.join(ctx.src, "libmcount"), "--no-event", "--no-pager"]
+                    try:
+                        p = subprocess.run(cmd + [prog], cwd=parent, stdout=subprocess.PIPE, stderr=subprocess.PIPE, timeout=60)
+                        rc = p.returncode
+                    except subprocess.TimeoutExpired:
+                        rc = -999
+                    post = snapshot_tree(parent)
+                    runs += 1
+                    for t in (pre, post):
+                        t.pop("gmon.out", None)
+                    if mode == "live":
+                        what = None if pre == post else "live mode changed files it did not create"
+                    else:
+                        # the tracee exits non-zero on purpose?  no: rc 0 means recording succeeded
+                        what = monitor(pre, post, rc == 0, "DIR")
+                    if what:
+                        bad += 1
+                        if bad <= 2:
+                            C.violation(ctx, "e2e-%s-%s-%s" % (mode, dn, on), {
+                                "kind": "property-violated-on-implementation", "what": what, "mode": mode,
+                                "command": " ".join(cmd + ["./prog"]), "DIR_before": dn, "DIR.old_before": on,
+                                "after": sorted(post.keys()), "uftrace_rc": rc,
+                                "theorem": "c20_foreign_untouched / c20_record_run_foreign_untouched"})
+    finally:
+        rcv.kill()
+        rcv.wait()
+    return runs, bad
 
 
 def replay(ctx, path):
